@@ -153,6 +153,30 @@ def c19_cases(tier):
         return None
     yield "generation error writes nothing", failing
 
+    def failing_hard():
+        # errors the library reports by panicking (a query or schema that does not parse, a missing schema file): still a non-zero exit
+        for (what, qtext, stext) in (("a query with unbalanced braces", "query Broken { hero { name }", None), ("a schema that does not parse", None, "type Query { hero: "),
+                                     ("a missing schema file", None, False)):
+            d, sp, qp = setup()
+            if qtext is not None:
+                open(qp, "w").write(qtext)
+            if stext is False:
+                os.remove(sp)
+            elif stext is not None:
+                open(sp, "w").write(stext)
+            for outdir in (False, True):
+                args = ["generate", "--schema-path", sp, "--no-formatting", qp]
+                od = os.path.join(d, "out%d" % outdir)
+                if outdir:
+                    os.makedirs(od)
+                    args += ["--output-directory", od]
+                res = run_cli(args)
+                wrote = os.listdir(od) if outdir else [f for f in os.listdir(d) if f.endswith(".rs")]
+                if res["exit"] == 0 or wrote:
+                    return "generate on %s%s: exit %s, files written %s (a generation error must give a non-zero exit and no file)" % (what, " with -o DIR" if outdir else "", res["exit"], wrote)
+        return None
+    yield "generation errors raised as panics", failing_hard
+
 
 # ------------------------------------------------------------------------------------------------------------- C20
 
